@@ -1,4 +1,4 @@
-from .common import TOPO_REQUIRED, grid_plan, need_classes
+from .common import pytest_contracts_job, TOPO_REQUIRED, grid_plan, need_classes
 
 LEVEL = "exploration"
 RULE = (
@@ -10,6 +10,13 @@ ASSUMPTIONS = ["BOUT++ index semantics as implemented in vmon/boutindex.py from 
 
 
 def plan(tier, seed):
+    p_ = _plan(tier, seed)
+    if tier == "thorough":
+        p_.setdefault("jobs", []).append(pytest_contracts_job())
+    return p_
+
+
+def _plan(tier, seed):
     return grid_plan(tier, seed, "C08")
 
 
